@@ -8,25 +8,27 @@ import (
 	"math/big"
 	"sort"
 	"strings"
+	"sync"
 )
 
 type FuncReport struct {
-	Func       string
-	File       string
-	Mode       string
-	Cases      int
-	Abstracted map[string]int
-	Err        string
-	Trusted    bool
-	Unbound    bool
+	Func          string
+	File          string
+	Mode          string
+	Cases         int
+	Abstracted    map[string]int
+	Err           string
+	Trusted       bool
+	Unbound       bool
 	UsedContracts []string
 	UsedTrusted   []string
-	BodyHash   string
+	BodyHash      string
+	Inlined       bool
 }
 
 func (e *Engine) newExec(q string, c *Contract) *Exec {
 	x := &Exec{eng: e, b: NewBank(), mode: c.Mode, qual: q, contract: c,
-		leafCache: map[string][]leaf{}, abstracted: map[string]int{}, strLits: map[string]*Term{},
+		leafCache: map[string][]leaf{}, leafByType: map[types.Type][]leaf{}, abstracted: map[string]int{}, strLits: map[string]*Term{},
 		nameCount: map[string]int{}, usedContracts: map[string]bool{}, usedTrusted: map[string]bool{},
 		addrTaken: map[types.Object]*Term{}}
 	return x
@@ -81,22 +83,51 @@ func (e *Engine) VerifyFunc(q string, c *Contract, caseFilter func(label string)
 		rep.Trusted = true
 		return nil, rep
 	}
-	var all []*Obligation
+	if c.Inline && len(c.Requires) == 0 && len(c.Ensures) == 0 {
+		// inlined at every call site: verified in the callers' context
+		rep.Inlined = true
+		return nil, rep
+	}
 	cases := enumCases(c.Fresh)
+	type caseOut struct {
+		obls []*Obligation
+		x    *Exec
+	}
+	outs := make([]*caseOut, len(cases))
+	var wg sync.WaitGroup
+	sem := make(chan struct{}, 16)
 	for ci, sc := range cases {
 		if caseFilter != nil && sc.label != "" && !caseFilter(sc.label) {
 			continue
 		}
-		x := e.newExec(q, c)
-		x.caseLabel = sc.label
-		func() {
-			defer func() {
-				if r := recover(); r != nil {
-					x.fail("engine panic: %v", r)
-				}
+		wg.Add(1)
+		sem <- struct{}{}
+		go func(ci int, sc splitCase) {
+			defer wg.Done()
+			defer func() { <-sem }()
+			x := e.newExec(q, c)
+			x.caseLabel = sc.label
+			func() {
+				defer func() {
+					if r := recover(); r != nil {
+						x.fail("engine panic: %v", r)
+					}
+				}()
+				x.runFunc(fd, c, sc, ci == 0)
 			}()
-			x.runFunc(fd, c, sc, ci == 0)
-		}()
+			if x.failed == nil {
+				x.finishObligations()
+			}
+			outs[ci] = &caseOut{x.obls, x}
+		}(ci, sc)
+	}
+	wg.Wait()
+	var all []*Obligation
+	for _, co := range outs {
+		if co == nil {
+			continue
+		}
+		x := co.x
 		rep.Cases++
 		for k, v := range x.abstracted {
 			rep.Abstracted[k] += v
@@ -116,8 +147,7 @@ func (e *Engine) VerifyFunc(q string, c *Contract, caseFilter func(label string)
 			// engine limit: obligations of this function are undecided
 			return nil, rep
 		}
-		x.finishObligations()
-		all = append(all, x.obls...)
+		all = append(all, co.obls...)
 	}
 	sort.Strings(rep.UsedContracts)
 	sort.Strings(rep.UsedTrusted)
@@ -300,8 +330,11 @@ func (x *Exec) runFunc(fd *ast.FuncDecl, c *Contract, sc splitCase, first bool) 
 		if en.Free {
 			continue
 		}
-		g := x.evalClause(exit, en, endPos)
-		x.oblige(exit, "post", en.Name, g, fd.Pos(), en.Props)
+		es := exit.clone()
+		x.skolem = true
+		g := x.evalClause(es, en, endPos)
+		x.skolem = false
+		x.oblige(es, "post", en.Name, g, fd.Pos(), en.Props)
 	}
 	// frame: heap arrays not in modifies are unchanged
 	if c.Modifies != nil || c.Pure {
@@ -616,7 +649,9 @@ func (e *Engine) verifyLemma(q string, c *Contract, rep *FuncReport) ([]*Obligat
 			cov.Hyps = append([]*Term{}, st.pc...)
 			x.obls = append(x.obls, cov)
 			for _, en := range c.Ensures {
+				x.skolem = true
 				g := x.evalClause(st, en, token.NoPos)
+				x.skolem = false
 				x.oblige(st, "lemma", en.Name, g, token.NoPos, en.Props)
 			}
 		}()
